@@ -230,7 +230,7 @@ def client(env, T, cid, rng, nops, W, H, mode, mon, other):
         # ---------------- ill-formed calls (C07 mode)
         if illp and rng.random() < illp:
             cls = rng.choice(("fresh", "wrong_kind", "other_proc", "own_pending", "own_used", "own_cancelled",
-                              "other_store", "cancel_unknown", "cancel_used", "cancel_cancelled"))
+                              "other_store", "cancel_unknown", "cancel_used", "cancel_cancelled", "cancel_other_store"))
             side = rng.choice(("put", "get"))
             tok = None
             if cls == "fresh":
@@ -255,6 +255,9 @@ def client(env, T, cid, rng, nops, W, H, mode, mon, other):
                 if tok is not None and not tok.triggered:
                     other.cancel_put(tok)
                     tok = None
+            elif cls == "cancel_other_store":
+                # a live (pending or granted) reservation of the twin store, cancelled through this store's API
+                tok = other.reserve_put(0) if side == "put" else other.reserve_get(0)
             elif cls == "cancel_unknown":
                 tok = env.event()
             elif cls == "cancel_used":
@@ -265,6 +268,8 @@ def client(env, T, cid, rng, nops, W, H, mode, mon, other):
                 tok = rng.choice(pool) if pool else None
             if tok is not None:
                 H.log(cid, "ill", cls, side)
+                raised = None
+                snap_other = other.sh.snapshot() if cls in ("other_store", "cancel_other_store") else None
                 try:
                     if cls.startswith("cancel_"):
                         (T.cancel_put if side == "put" else T.cancel_get)(tok)
@@ -276,11 +281,22 @@ def client(env, T, cid, rng, nops, W, H, mode, mon, other):
                         T.put(tok, it, rng)
                     else:
                         T.get(tok)
-                except Exception:
-                    pass
-                if cls == "other_store" and tok is not None:
+                except Exception as e_:
+                    raised = e_
+                # oracle at the API boundary the client used (an edge may resolve the store from the token)
+                mon.counters["c07_client_level_checks"] += 1
+                if raised is None:
+                    mon.violation("C07", "illformed_accepted", f"{T.kind}:{'cancel' if cls.startswith('cancel_') else side}:{cls}:accepted-at-the-called-api",
+                                  {"class": cls, "side": side})
+                elif not isinstance(raised, RuntimeError):
+                    mon.violation("C07", "illformed_wrong_exception", f"{T.kind}:{side}:{cls}:{type(raised).__name__}-at-the-called-api",
+                                  {"class": cls, "exc": repr(raised)[:200]})
+                if snap_other is not None and other.sh.snapshot() != snap_other and not other.sh.dead:
+                    mon.violation("C07", "illformed_changed_state", f"{T.kind}:{cls}:rejected-or-accepted-call-changed-the-other-store",
+                                  {"class": cls, "side": side})
+                if cls in ("other_store", "cancel_other_store") and tok is not None:
                     try:
-                        other.cancel_put(tok)
+                        (other.cancel_put if side == "put" else other.cancel_get)(tok)
                     except Exception:
                         pass
                 continue
